@@ -289,6 +289,7 @@ def gate_edges(fn, adt, field, fx=None, weak=False):
     value is the truth value of the *field* on that edge (negations folded in)."""
     cfg = cfg_of(fn)
     out = []
+    hit_locals = {}
     for bi, b in enumerate(fn.blocks):
         if cfg.cleanup[bi] or b["term"]["k"] != "switch":
             continue
@@ -324,6 +325,16 @@ def gate_edges(fn, adt, field, fx=None, weak=False):
             out.append((bi, true_t, True))
         if weak or False not in consts:
             out.append((bi, false_t, False))
+        hit_locals[op_local(t["op"])] = flip
+    if weak and hit_locals:
+        # copies of the same switch that variant threading already resolved (the helper answered with a constant
+        # on that path, e.g. `false` for a destination that does not exist): the resolved edge counts
+        for bi, b in enumerate(fn.blocks):
+            t = b["term"]
+            ts = t.get("threaded_switch") if t["k"] == "goto" else None
+            if isinstance(ts, dict) and ts.get("kind") == "bool" and ts.get("local") in hit_locals:
+                val = bool(ts["val"]) ^ bool(hit_locals[ts["local"]])
+                out.append((bi, t["target"], val))
     return out
 
 
